@@ -7,9 +7,13 @@ the Python converter.  Strict validity is defined twice, independently: in Lean
 (Spec/StrictValid.lean, with the compositionality lemmas the generator's "label = conjunction of the
 members' labels" rests on) and in Python (tools/mmvalid.py); the Lean definition is run through a
 driver on every vector and must agree with the Python one (cross-validation), and the labels are
-compared with it.  A Lean model of the generation algorithm itself (needed for the statement over
-evolved metamodels) is not built: C17 is claimed for the committed model only, evolved models are
-covered per model by C06.
+compared with it.
+The generation algorithm itself is modelled in Lean (Spec/TestGen.lean) and tied to the code on every run: the model's driver
+prints every vector of every message class, and the file table built from that stream must equal — names, contents, order — what
+generate() of the current tree returns, for the committed metamodel and for a composite evolved one.  Over that model
+`gen_sound` (Props/C17Gen*.lean) proves, for EVERY metamodel passing the decidable check `modelOK`, that a True label implies
+strict validity; it is instantiated per run for both metamodels (`C17_request_labels_sound`, ...).  The converse (False label =>
+invalid) is false in general and is decided per metamodel by the enumeration.
 Known finding F1: every response vector carries an `error` object next to `result`.
 """
 import json
@@ -40,13 +44,97 @@ theorem C17_validity_of_unions (n : Nat) (ts : List Ty) (j : Json) :
 #print axioms C17_validity_of_unions
 """
 
+GEN_MAIN = """import LspVerif.Driver.TestGen
+import GenMeta{sfx}
+def main : IO Unit := LspVerif.Driver.testGenMain Gen{sfx}.model
+"""
+
+GEN_INST = """import LspVerif.Props.C17Gen3
+import GenMeta{sfx}
+open LspVerif LspVerif.TestGen
+
+/-- the metamodel of this run, with the ResponseError structure appended as generate() does -/
+def C17M{sfx} : Model := withResponseError Gen{sfx}.model
+
+theorem C17{sfx}_modelOK : modelOK C17M{sfx} = true := by decide +kernel
+
+def messageTypesOK{sfx} (M : Model) : Bool :=
+  M.requests.all (fun r => (match r.params with | some t => tyOK t | none => true) && tyOK r.result) &&
+  M.notifications.all (fun r => match r.params with | some t => tyOK t | none => true)
+
+theorem C17{sfx}_message_types_ok : messageTypesOK{sfx} C17M{sfx} = true := by decide +kernel
+
+/-- every True-labelled request vector the generation algorithm yields for this metamodel is a valid request message -/
+theorem C17{sfx}_request_labels_sound : ∀ r ∈ C17M{sfx}.requests, ∀ out, genRequest C17M{sfx} r = some out →
+    ∀ m ∈ out, m.1 = true → validRequest C17M{sfx} r m.2 = true := by
+  intro r hr out h
+  have := List.all_eq_true.mp (by have := C17{sfx}_message_types_ok; simp only [messageTypesOK{sfx}, Bool.and_eq_true] at this; exact this.1) r hr
+  simp only [Bool.and_eq_true] at this
+  exact request_sound C17M{sfx} C17{sfx}_modelOK r (fun t ht => by rw [ht] at this; exact this.1) out h
+
+theorem C17{sfx}_notification_labels_sound : ∀ r ∈ C17M{sfx}.notifications, ∀ out, genNotification C17M{sfx} r = some out →
+    ∀ m ∈ out, m.1 = true → validNotification C17M{sfx} r m.2 = true := by
+  intro r hr out h
+  have := List.all_eq_true.mp (by have := C17{sfx}_message_types_ok; simp only [messageTypesOK{sfx}, Bool.and_eq_true] at this; exact this.2) r hr
+  exact notification_sound C17M{sfx} C17{sfx}_modelOK r (fun t ht => by rw [ht] at this; exact this) out h
+
+/-- the `result` member of the response vectors (they also carry an `error` member: recorded finding F1) -/
+theorem C17{sfx}_result_labels_sound : ∀ r ∈ C17M{sfx}.requests, ∀ g, genTy C17M{sfx} genFuel [] r.result = some g →
+    ∀ x ∈ g, ∃ p, x.2 = GV.val p ∧ (x.1 = true → validTy C17M{sfx} (genFuel + 1) r.result p = true) := by
+  intro r hr g h
+  have := List.all_eq_true.mp (by have := C17{sfx}_message_types_ok; simp only [messageTypesOK{sfx}, Bool.and_eq_true] at this; exact this.1) r hr
+  simp only [Bool.and_eq_true] at this
+  exact response_result_sound C17M{sfx} C17{sfx}_modelOK r this.2 g h
+
+#print axioms C17{sfx}_request_labels_sound
+#print axioms C17{sfx}_notification_labels_sound
+#print axioms C17{sfx}_result_labels_sound
+"""
+
 F1 = "C17|response-vectors|result-and-error-together"
 
 
+def generator_model(ctx, sfx, model_path, what, problems):
+    """Tie the Lean model of the generation algorithm to generate() of the current tree for one metamodel, and instantiate the
+    label-soundness theorems for it."""
+    import subprocess
+    mod, err = tables.gen_meta(ctx, [model_path] if model_path else None, modname="GenMeta" + sfx, ns="Gen" + sfx)
+    if mod is None:
+        raise Broken(f"x_meta failed ({what}): " + err)
+    thms = [f"C17{sfx}_request_labels_sound", f"C17{sfx}_notification_labels_sound", f"C17{sfx}_result_labels_sound"]
+    common.write_module(ctx.work, "InstG" + sfx, GEN_INST.replace("{sfx}", sfx))
+    main = common.write_module(ctx.work, "MainT" + sfx, GEN_MAIN.replace("{sfx}", sfx))
+    res = common.lean_compile(ctx.work, [["InstG" + sfx]])
+    failed = ctx.add_lean_results(res, theorems_expected={"InstG" + sfx: thms})
+    for r in failed:
+        problems.append(f"{r.name} ({what}): {r.out[-800:]}")
+    outf = ctx.work / f"testgen{sfx}.out"
+    with open(outf, "w", encoding="utf-8") as fh:
+        p = subprocess.run(["lean", "--run", str(main)], stdout=fh, stderr=subprocess.PIPE, text=True, env=common.lean_env(ctx.work), cwd=str(ctx.work), timeout=3600)
+    if p.returncode != 0:
+        raise Broken(f"Lean driver MainT{sfx} failed: " + p.stderr[-2000:])
+    q = common.run_py(common.VERIF / "tools/corr/testgen_corr.py", ["--lean-out", str(outf)] + (["--model", str(model_path)] if model_path else []), check=False, timeout=3600)
+    outf.unlink(missing_ok=True)
+    if q.returncode != 0:
+        problems.append(f"generator correspondence harness crashed ({what}): " + q.stderr[-800:])
+        return
+    c = json.loads(q.stdout)
+    ctx.extra.setdefault("generator_model_correspondence", {})[what] = {k: c[k] for k in ("files_real", "files_model", "only_real", "only_model", "differing", "same_order", "per_kind", "true_files")}
+    ctx.corr["evaluations"] = ctx.corr.get("evaluations", 0) + c["files_real"]
+    ctx.corr["distinct_nontrivial"] = ctx.corr.get("distinct_nontrivial", 0) + c["files_real"]
+    agree = not c["generate_crashed"] and not c["model_crashes"] and c["only_real"] == 0 and c["only_model"] == 0 and c["differing"] == 0 and c["same_order"]
+    if not agree:
+        ctx.corr["disagreements"] = ctx.corr.get("disagreements", 0) + c["only_real"] + c["only_model"] + c["differing"] + (0 if c["same_order"] else 1)
+        problems.append(f"the Lean model of the generation algorithm and generate() differ for {what}: only generate(): {c['only_real']}, only the model: {c['only_model']}, "
+                        f"different content: {c['differing']}, same order: {c['same_order']}, generate() raised: {c['generate_crashed']}, model crashes: {c['model_crashes']}; first: {json.dumps(c['first'])[:600]}")
+
+
+
 def run(ctx):
-    ctx.level = "other"
-    ctx.extra["explanation"] = ("exhaustive enumeration of the finite vector set of the committed metamodel; label compared with strict validity "
-                                "computed by two independent validators (Lean definition run through a driver, Python); Lean lemmas on how validity composes")
+    ctx.level = "proof"
+    ctx.extra["explanation"] = ("Lean model of the generation algorithm tied to generate() by whole-output correspondence (committed + evolved metamodel); gen_sound: True label => "
+                                "strictly valid, for every metamodel passing modelOK (kernel-evaluated per run); exhaustive enumeration of the finite vector set of the committed metamodel "
+                                "for the rest: label compared with strict validity computed by two independent validators (Lean definition run through a driver, Python)")
     ctx.extra["exhaustive"] = True
     ctx.rule = ("all vectors the testdata plugin generates for the committed lsp.json (generate() in process): file-name shape, hash, label vs strict validity, "
                 ">=1 True vector per message class, True vectors accepted by the Python converter; distinct = distinct vector")
@@ -84,6 +172,19 @@ def run(ctx):
             ctx.notes.append(f"Lean and Python strict validity disagree: {op[:300]}: lean={m} python={i}")
         if dis:
             problems.append(f"the two strict-validity definitions disagree on {len(dis)} vectors; first {dis[0][0][:200]}")
+    # ---- the generation algorithm: Lean model == generate(), and the label-soundness theorems, for the committed and an evolved metamodel
+    generator_model(ctx, "", None, "the committed metamodel", problems)
+    import shutil
+    import props.c07 as c07
+    doc = json.load(open(common.REPO / "generator/lsp.json"))
+    edoc, desc = c07.evolved_model(doc)
+    d = common.scratch_dir("c17-evolved")
+    try:
+        mf = d / "model.json"
+        mf.write_text(json.dumps(edoc))
+        generator_model(ctx, "E", mf, "the composite evolved metamodel", problems)
+    finally:
+        shutil.rmtree(d, ignore_errors=True)
     if problems and not [v for v in ctx.violations]:
         ctx.violation("C17|proof", "C17: validators disagree or the Lean part no longer checks; no mislabelled vector found", {"broken": problems}, no_input=True)
 
